@@ -439,3 +439,172 @@ Example C06_checker_accepts_ex :
   dense_spec_b 0 Z.eqb ex_store 2 [0; 0; 1; 1; 0; 1; 0; 1] [7; 3; 4] [0; 1; 2; 3] [[0; 0; 30; 31]; [0; 0; 99; 99]; [10; 11; 0; 0]] = true /\
   dense_spec_b 0 Z.eqb ex_store 2 [0; 0; 1; 1; 0; 1; 0; 1] [7; 3; 4] [0; 1; 2; 3] [[10; 11; 0; 0]; [0; 0; 99; 99]; [0; 0; 30; 31]] = false.
 Proof. repeat split; vm_compute; reflexivity. Qed.
+
+(* ====================== stage 4: the waveform route linked to C03 ====================== *)
+(* C03.Model and C06.Model both define store / mkstore / intersect1d / index_of / zlen: from here on the C03 names
+   are the unqualified ones and C06's are written qualified. *)
+From PV Require Import Base.PySlice Base.NpSearch C16.Model C16.Spec C03.Model C03.Spec C03.Proofs2 C06.LinkC03.
+
+(* THE LINK.  get_features without a feature file ([get_features_wf]: intersect1d with the store's ids, C03's model of
+   TemplateModel.get_waveforms on those ids and the requested channels, compute_features with the eigen-solver as an
+   oracle, placement through _index_of) on a store written by C03's export of the raw data: ids, per-spike channel rows
+   (any width, -1 anywhere, channels missing for some spikes) and what np.load returns for the exported file.
+   For every request of distinct non-negative ids in any order, stored or not, and every non-empty list of distinct
+   channels: the waveforms handed to the eigen-solver and to the projection are W = for each requested stored spike,
+   in increasing id order, its scaled zero-padded raw window on the requested channels, zero on the channels not stored
+   for that spike ([masked_window], C03_store_masked); whenever compute_features answers on W -- whatever components
+   the oracle returns -- get_features answers with one row per requested id, the row of a requested stored spike being
+   its row of compute_features(W) and the row of a spike the store does not hold being zero. *)
+Theorem C06_link_waveform_route : forall (R : Type) (radd rmul : R -> R -> R) (rzero : R)
+    (pcs_of : list (list (list R)) -> list (list (list R))) (scale : R -> R) (c : Z) (data : list (list R))
+    (traces : option (list (list R))) (samples : list Z) (n nch ncs : Z) (chunks : list iv) (spikes : list spike)
+    (kf : fkind) (ids q_ids q_ch : list Z),
+  rect c data -> 1 <= c -> 1 <= n -> 0 <= ncs -> spikes_ok (NpSearch.zlen data) c ncs spikes ->
+  Tiles (NpSearch.zlen data) chunks ->
+  NoDup ids -> Forall (fun x => 0 <= x) ids -> NpSearch.zlen ids = NpSearch.zlen spikes ->
+  NoDup q_ids -> (forall x, In x q_ids -> 0 <= x) ->
+  q_ch <> [] -> NoDup q_ch -> Forall (fun ch => -1 <= ch) q_ch ->
+  let exist := C06.Model.intersect1d q_ids ids in
+  exists f stw sps,
+    export rzero scale data n chunks spikes ncs kf = Some f /\ np_load f = Some stw /\
+    Forall2 (refers ids spikes) exist sps /\
+    let st := C03.Model.mkstore ids (map sp_ch spikes) stw in
+    let W := map (fun sp => masked_window rzero scale data n sp q_ch) sps in
+    forall feats, compute_features radd rmul rzero pcs_of (Z.to_nat n) (length q_ch) W = Some feats ->
+      length feats = length exist /\
+      exists out, get_features_wf radd rmul rzero pcs_of traces st samples n nch q_ids q_ch = Some out /\
+        length out = length q_ids /\
+        forall p x, nth_error q_ids p = Some x ->
+          (forall t, nth_error exist t = Some x -> nth_error out p = nth_error feats t) /\
+          (~ In x ids -> nth_error out p = Some (zrow3 rzero (length q_ch))).
+Proof. exact (@link_route_export). Qed.
+Print Assumptions C06_link_waveform_route.
+
+(* the same on the store in the form C03_route_model_store uses (ids, channel rows, scaled windows): no hypothesis on
+   the recording, the spike samples or the chunking; and the waveform stage stated as an equation *)
+Theorem C06_link_waveform_route_store : forall (R : Type) (radd rmul : R -> R -> R) (rzero : R)
+    (pcs_of : list (list (list R)) -> list (list (list R))) (scale : R -> R) (c : Z) (data : list (list R))
+    (traces : option (list (list R))) (samples : list Z) (n nch : Z) (spikes : list spike) (ids q_ids q_ch : list Z),
+  1 <= n -> Forall (fun sp => chans_ok c (sp_ch sp)) spikes ->
+  NoDup ids -> Forall (fun x => 0 <= x) ids -> NpSearch.zlen ids = NpSearch.zlen spikes ->
+  NoDup q_ids -> (forall x, In x q_ids -> 0 <= x) ->
+  q_ch <> [] -> NoDup q_ch -> Forall (fun ch => -1 <= ch) q_ch ->
+  let st := C03.Model.mkstore ids (map sp_ch spikes) (scaled_windows rzero scale data n spikes) in
+  let exist := C06.Model.intersect1d q_ids ids in
+  exists sps, Forall2 (refers ids spikes) exist sps /\
+    let W := map (fun sp => masked_window rzero scale data n sp q_ch) sps in
+    wf_compute radd rmul rzero pcs_of traces st samples n nch q_ch exist =
+      compute_features radd rmul rzero pcs_of (Z.to_nat n) (length q_ch) W /\
+    forall feats, compute_features radd rmul rzero pcs_of (Z.to_nat n) (length q_ch) W = Some feats ->
+      length feats = length exist /\
+      exists out, get_features_wf radd rmul rzero pcs_of traces st samples n nch q_ids q_ch = Some out /\
+        length out = length q_ids /\
+        forall p x, nth_error q_ids p = Some x ->
+          (forall t, nth_error exist t = Some x -> nth_error out p = nth_error feats t) /\
+          (~ In x ids -> nth_error out p = Some (zrow3 rzero (length q_ch))).
+Proof. exact (@link_route). Qed.
+Print Assumptions C06_link_waveform_route_store.
+
+(* what a computed row contains: feature i of requested channel number k (channel ch) of the stored spike sp is
+   sum_j pcs[i][j][k] * x_j with x_j = factor x raw sample at s - n//2 + j on channel ch (zero outside the recording:
+   C03's [cell]) when ch is stored for the spike, and x_j = 0 when it is not *)
+Theorem C06_link_cells : forall (R : Type) (radd rmul : R -> R -> R) (rzero : R)
+    (pcs_of : list (list (list R)) -> list (list (list R))) (scale : R -> R) (data : list (list R)) (n : Z)
+    (sps : list spike) (q_ch : list Z) (feats : list (list (list R))),
+  let W := map (fun sp => masked_window rzero scale data n sp q_ch) sps in
+  compute_features radd rmul rzero pcs_of (Z.to_nat n) (length q_ch) W = Some feats ->
+  length (pcs_of W) = 3%nat /\
+  forall t sp, nth_error sps t = Some sp ->
+    exists frow, nth_error feats t = Some frow /\ length frow = length q_ch /\
+      forall k ch, nth_error q_ch k = Some ch ->
+        exists fk, nth_error frow k = Some fk /\ length fk = 3%nat /\
+          forall i pi, nth_error (pcs_of W) i = Some pi ->
+            nth_error fk i =
+            Some (sum_prod radd rmul rzero (Z.to_nat n) (fun j => ent rzero pi j k)
+                    (fun j => if memZ ch (sp_ch sp)
+                              then scale (cell rzero data (sp_s sp - n / 2 + Z.of_nat j) ch) else rzero)).
+Proof. exact (@link_route_cells). Qed.
+Print Assumptions C06_link_cells.
+
+(* ... so a requested channel that is not stored for a requested stored spike has three zero features, whatever the
+   eigen-solver returned (only x * 0 = 0 and 0 + 0 = 0 are used; comparator clause 31) *)
+Theorem C06_link_unstored_channel : forall (R : Type) (radd rmul : R -> R -> R) (rzero : R)
+    (pcs_of : list (list (list R)) -> list (list (list R))) (scale : R -> R) (data : list (list R)) (n : Z)
+    (sps : list spike) (q_ch : list Z) (feats : list (list (list R))) (t : nat) (sp : spike) (k : nat) (ch : Z),
+  (forall a, rmul a rzero = rzero) -> radd rzero rzero = rzero ->
+  let W := map (fun sp => masked_window rzero scale data n sp q_ch) sps in
+  compute_features radd rmul rzero pcs_of (Z.to_nat n) (length q_ch) W = Some feats ->
+  nth_error sps t = Some sp -> nth_error q_ch k = Some ch -> ~ In ch (sp_ch sp) ->
+  exists frow, nth_error feats t = Some frow /\ nth_error frow k = Some (repeat rzero 3%nat).
+Proof. exact (@link_route_unstored_channel). Qed.
+Print Assumptions C06_link_unstored_channel.
+
+(* totality: on such waveforms compute_features fails only when the eigen-solver's answer is not three components of
+   shape (n_samples, n_requested_channels) *)
+Theorem C06_link_total : forall (R : Type) (radd rmul : R -> R -> R) (rzero : R)
+    (pcs_of : list (list (list R)) -> list (list (list R))) (scale : R -> R) (data : list (list R)) (n : Z)
+    (spikes : list spike) (ids exist : list Z) (sps : list spike) (q_ch : list Z),
+  Forall2 (refers ids spikes) exist sps ->
+  let W := map (fun sp => masked_window rzero scale data n sp q_ch) sps in
+  length (pcs_of W) = 3%nat -> forallb (is_shape (Z.to_nat n) (length q_ch)) (pcs_of W) = true ->
+  exists feats, compute_features radd rmul rzero pcs_of (Z.to_nat n) (length q_ch) W = Some feats.
+Proof. exact (@link_route_total). Qed.
+Print Assumptions C06_link_total.
+
+(* ORDER OF THE REQUEST (any store, any oracle): intersect1d sorts, so the waveforms handed to the eigen-solver are the
+   same for every ordering of the same requested ids, and the row of a spike is the same wherever it stands.  Unlike
+   C06_row_local (stored features) the row DOES depend on which other stored spikes are requested. *)
+Theorem C06_link_request_order : forall (R : Type) (radd rmul : R -> R -> R) (rzero : R)
+    (pcs_of : list (list (list R)) -> list (list (list R))) (traces : option (list (list R)))
+    (st : C03.Model.store (A := R)) (samples : list Z) (n nch : Z) (q_ids q_ids' q_ch : list Z)
+    (out : list (list (list R))),
+  Permutation.Permutation q_ids q_ids' -> NoDup q_ids -> (forall x, In x q_ids -> 0 <= x) ->
+  get_features_wf radd rmul rzero pcs_of traces st samples n nch q_ids q_ch = Some out ->
+  exists out', get_features_wf radd rmul rzero pcs_of traces st samples n nch q_ids' q_ch = Some out' /\
+    length out' = length out /\
+    forall p p' x, nth_error q_ids p = Some x -> nth_error q_ids' p' = Some x -> nth_error out p = nth_error out' p'.
+Proof. exact (@link_route_perm). Qed.
+Print Assumptions C06_link_request_order.
+
+(* the comparator's per-channel rule (as many leading components as are determined: lead_max) is Spec.v's
+   pca_leading_c wherever every channel has all its min(3, k-1) components determined *)
+Theorem C06_link_leading_max : forall c nsamp nc w lead,
+  pca_leading_c c nsamp nc w = Some lead -> pca_leading_max c nsamp nc w = Some lead.
+Proof. exact pca_leading_c_max. Qed.
+Print Assumptions C06_link_leading_max.
+
+(* ---- stage 4: non-vacuity.  C03's example recording (3 samples x 2 channels), two spikes exported with factor 5:
+   id 7 = sample 0 on the channel row [-1; 1] (channel 0 NOT stored, -1 in a non-final position), id 3 = sample 2 on
+   [1; 0].  Request [3; 9; 7] (9 is not stored) on channels [0; 1]; a fixed oracle. ---- *)
+Definition ex4_data : list (list Z) := [[1; 2]; [11; 12]; [21; 22]].
+Definition ex4_spikes := [mkspike 0 [-1; 1]; mkspike 2 [1; 0]].
+Definition ex4_chunks := [mkiv 0 2; mkiv 2 3].
+Definition ex4_pcs : list (list (list Z)) := [[[1; 0]; [0; 1]]; [[0; 1]; [1; 0]]; [[1; 1]; [1; 1]]].
+Definition ex4_store : option (C03.Model.store (A := Z)) :=
+  match export 0 (fun v => v * 5) ex4_data 2 ex4_chunks ex4_spikes 2 PyFloat with
+  | Some f => option_map (C03.Model.mkstore [7; 3] (map sp_ch ex4_spikes)) (np_load f)
+  | None => None
+  end.
+Example C06_link_ex_premises :
+  spikes_ok_b 3 2 2 ex4_spikes = true /\ tiles_b 3 ex4_chunks = true /\ C06.Model.intersect1d [3; 9; 7] [7; 3] = [3; 7].
+Proof. vm_compute. repeat split; reflexivity. Qed.
+Example C06_link_ex :
+  (* the waveforms that reach compute_features: id 3 whole, id 7 with channel 0 masked and its first row outside the recording *)
+  option_map (fun st => model_get_waveforms 0 None (Some st) [] 2 2 [3; 7] (Some [0; 1])) ex4_store =
+    Some (GwOut [[[55; 60]; [105; 110]]; [[0; 0]; [0; 10]]]) /\
+  map (fun sp => masked_window 0 (fun v => v * 5) ex4_data 2 sp [0; 1]) [mkspike 2 [1; 0]; mkspike 0 [-1; 1]] =
+    [[[55; 60]; [105; 110]]; [[0; 0]; [0; 10]]] /\
+  (* the features: row 0 = id 3, row 1 = zero (id 9 not stored), row 2 = id 7 with zeros on channel 0 *)
+  option_map (fun st => get_features_wf Z.add Z.mul 0 (fun _ => ex4_pcs) None st [] 2 2 [3; 9; 7] [0; 1]) ex4_store =
+    Some (Some [[[55; 105; 160]; [110; 60; 170]]; [[0; 0; 0]; [0; 0; 0]]; [[0; 0; 0]; [10; 0; 10]]]) /\
+  (* another order of the request: same rows, other places *)
+  option_map (fun st => get_features_wf Z.add Z.mul 0 (fun _ => ex4_pcs) None st [] 2 2 [7; 3; 9] [0; 1]) ex4_store =
+    Some (Some [[[0; 0; 0]; [10; 0; 10]]; [[55; 105; 160]; [110; 60; 170]]; [[0; 0; 0]; [0; 0; 0]]]).
+Proof. vm_compute. repeat split; reflexivity. Qed.
+(* the per-channel rule: five spikes, channel 0 carried by two of them only (rank 1): one component determined out of
+   the three claimed for five spikes; channel 1 by all five: three *)
+Example C06_link_leading_ex :
+  pca_leading_max 3 3 2 [[[2; 1]; [0; 1]; [0; 1]]; [[-2; -1]; [0; 1]; [0; 1]]; [[0; 0]; [0; -2]; [0; 1]]; [[0; 0]; [0; 0]; [0; -3]]; [[0; 0]; [0; 0]; [0; 0]]] =
+    Some [[0%nat]; [2%nat; 1%nat; 0%nat]] /\
+  pca_leading_c 3 3 2 [[[2; 1]; [0; 1]; [0; 1]]; [[-2; -1]; [0; 1]; [0; 1]]; [[0; 0]; [0; -2]; [0; 1]]; [[0; 0]; [0; 0]; [0; -3]]; [[0; 0]; [0; 0]; [0; 0]]] = None.
+Proof. vm_compute. split; reflexivity. Qed.
